@@ -25,6 +25,7 @@ type Obl struct {
 	Fn     string
 	Inline string // inlining chain
 	HId    string // houdini candidate id
+	splitDepth int
 	Parts  []Obl  // a grouped obligation (conjunction): solved individually only if the group is not discharged at once
 }
 
@@ -76,6 +77,8 @@ type Ctx struct {
 	skn     int
 	rootFrame *Frame
 	defs    map[string]string // named definitions (name -> term), for syntactic frame checks
+	reachParts map[string][]string // merged path condition -> the edge conditions it is the disjunction of
+	pendingBindings []Val     // captured-variable values for the closure body about to be executed
 	viewResult bool           // the slice being created is a view into a ghost stream array
 	frameTop string           // allocation horizon used by loop frame conditions
 	loopTop  map[int]string   // loop header -> allocation horizon at the loop head
